@@ -3,6 +3,7 @@ package main
 import (
 	"fmt"
 	"io"
+	"math/rand"
 	"os"
 	"sort"
 	"sync"
@@ -20,6 +21,7 @@ type RunOpts struct {
 	LogSMT    string // directory for solver transcripts (debug)
 	Verbose   bool
 	Progress  bool
+	Seed      int
 }
 
 type AssertSummary struct {
@@ -84,6 +86,10 @@ func Explore(p *Program, entry *ssa.Function, o RunOpts, onPath func(*Exec, Path
 	var wg sync.WaitGroup
 	var solverTime time.Duration
 	lastProgress := time.Now()
+	var rng *rand.Rand
+	if o.Deadline > 0 || o.MaxPaths > 0 {
+		rng = rand.New(rand.NewSource(int64(o.Seed) + 1))
+	}
 	for w := 0; w < o.Workers; w++ {
 		wg.Add(1)
 		go func(w int) {
@@ -115,8 +121,14 @@ func Explore(p *Program, entry *ssa.Function, o RunOpts, onPath func(*Exec, Path
 					cond.Broadcast()
 					return
 				}
-				// depth-first-ish: take the last item
-				item := queue[len(queue)-1]
+				// depth-first-ish: take the last item; time-boxed runs pick a random item every other time so that a
+				// truncated exploration is spread over the input space instead of one corner of it
+				idx := len(queue) - 1
+				if rng != nil && len(queue) > 1 && rng.Intn(2) == 0 {
+					idx = rng.Intn(len(queue))
+				}
+				item := queue[idx]
+				queue[idx] = queue[len(queue)-1]
 				queue = queue[:len(queue)-1]
 				stop := res.Truncated
 				mu.Unlock()
